@@ -26,8 +26,8 @@ static Parsed parse_file(const std::string& fn) {
 }
 
 // ------------------------------------------------------------- rewrites ---
-enum Rule { R1_comment_line, R2_trailing_comment, R3_blank_line, R4_whitespace, R5_case, R6_linebreak, R7_after_slash, NRULES };
-static const char* rule_name[] = {"R1-comment-line", "R2-trailing-comment", "R3-blank-line", "R4-tabs-spaces", "R5-keyword-case", "R6-line-break", "R7-text-after-slash"};
+enum Rule { R1_comment_line, R2_trailing_comment, R3_blank_line, R4_whitespace, R5_case, R6_linebreak, R7_after_slash, R9_repeat, NRULES };
+static const char* rule_name[] = {"R1-comment-line", "R2-trailing-comment", "R3-blank-line", "R4-tabs-spaces", "R5-keyword-case", "R6-line-break", "R7-text-after-slash", "R9-repeat-count"};
 struct Site { Rule r; int line; int gap; };
 
 struct Doc {                         // an original, as lines with per-line attributes
@@ -51,6 +51,11 @@ static std::vector<Site> sites(const Doc& d) {
             auto t = deckgen::tokens(d.lines[i]);
             for (int g = 1; g < (int)t.size(); ++g) if (!bare_word(t[g])) s.push_back({R6_linebreak, i, g});
             if (!t.empty() && t.back() == "/") s.push_back({R7_after_slash, i, 0});
+            for (int g = 0; g + 1 < (int)t.size(); ) {       // R9: a run of equal adjacent values v v v  <->  3*v
+                int e = g; while (e + 1 < (int)t.size() && t[e + 1] == t[g]) ++e;
+                if (e > g && t[g] != "/" && t[g].find('*') == std::string::npos) s.push_back({R9_repeat, i, g});
+                g = e + 1;
+            }
         }
     }
     return s;
@@ -64,10 +69,15 @@ static std::string render(const Doc& d, const std::vector<Site>& ss) {
         for (auto& s : ss) if (s.line == i && s.r == R3_blank_line) out += "   \n";
         if (i == (int)d.lines.size()) break;
         std::string l = d.lines[i];
-        bool ws = false, cmt = false, after = false; int lower = -1; std::vector<int> breaks;
-        for (auto& s : ss) if (s.line == i) { if (s.r == R4_whitespace) ws = true; if (s.r == R2_trailing_comment) cmt = true; if (s.r == R7_after_slash) after = true; if (s.r == R5_case) lower = s.gap; if (s.r == R6_linebreak) breaks.push_back(s.gap); }
+        bool ws = false, cmt = false, after = false; int lower = -1; std::vector<int> breaks; std::vector<int> repeats;
+        for (auto& s : ss) if (s.line == i) { if (s.r == R9_repeat) repeats.push_back(s.gap); if (s.r == R4_whitespace) ws = true; if (s.r == R2_trailing_comment) cmt = true; if (s.r == R7_after_slash) after = true; if (s.r == R5_case) lower = s.gap; if (s.r == R6_linebreak) breaks.push_back(s.gap); }
         if (lower == 0) for (auto& c : l) c = std::tolower((unsigned char)c);
         if (lower == 1) { bool first = true; for (auto& c : l) { if (std::isalpha((unsigned char)c)) { c = first ? std::toupper((unsigned char)c) : std::tolower((unsigned char)c); first = false; } } }
+        if (!repeats.empty() && breaks.empty()) {          // collapse the runs (right to left so indices stay valid)
+            auto t = deckgen::tokens(l); std::sort(repeats.rbegin(), repeats.rend());
+            for (int g : repeats) { int e = g; while (e + 1 < (int)t.size() && t[e + 1] == t[g]) ++e; std::string tok = std::to_string(e - g + 1) + "*" + t[g]; t.erase(t.begin() + g, t.begin() + e + 1); t.insert(t.begin() + g, tok); }
+            l.clear(); for (auto& x : t) l += " " + x;
+        }
         if (!breaks.empty() || (ws && d.tokenizable[i])) {
             auto t = deckgen::tokens(l); std::string m;
             for (int g = 0; g < (int)t.size(); ++g) {
@@ -172,6 +182,9 @@ static std::vector<TokRec> token_records() {
         mk("DENSITY", "DENSITY\n", "", {"800", "1000", "1"}, "ddd"),
         mk("GCONPROD", "GCONPROD\n", "/\n", {"'G1'", "ORAT", "1000", "1000", "1000", "1000", "RATE", "YES", "1"}, "vddddddd d"),
         mk("TUNING1", "TUNING\n", "/\n/\n", {"1", "10", "0.1", "0.15", "3", "0.3", "0.1", "1.25", "0.75"}, "ddddddddd"),
+        mk("WELSPECS", "WELSPECS\n", "/\n", {"'W1'", "'W1'", "3", "3", "2000", "OIL"}, "vvvvdv"),
+        mk("WCONPROD", "WCONPROD\n", "/\n", {"'P1'", "'ORAT'", "'ORAT'", "100", "100", "100"}, "vvvddd"),
+        mk("WLIST", "WLIST\n", "/\n", {"'*L1'", "'NEW'", "'P1'", "'P1'", "'P2'"}, "vvvvv"),
     };
 }
 static std::vector<TokRec> data_records() {
